@@ -103,6 +103,14 @@ def vector_strategy(tier):
         cand = sorted(set(data_vals + [data_vals[0] - 1, data_vals[-1] + 1] + [x + 0.25 for x in data_vals]))
         k = 2 if b in model.WITHIN_TYPES else 1
         T = sorted(draw(st.lists(st.sampled_from(cand), min_size=k, max_size=k)))
+        if n and draw(st.sampled_from([False, False, True])):
+            # some values miss a threshold by a hair (5e-6 relative and less): events are exact comparisons
+            for t in T:
+                for eps in (1e-9, -1e-9, 4e-6, -4e-6):
+                    j = draw(st.integers(0, 2 * n - 1))
+                    tgt = o if j < n else f
+                    if tgt[j % n] is not None:
+                        tgt[j % n] = t + eps * max(1.0, abs(t))
         return {"obs": o, "fcst": f, "bin_type": b, "thresholds": T}
     return s()
 
